@@ -253,6 +253,7 @@ class VDict(V):
         self.k, self.v, self.dom, self.vals, self.origin = k, v, dom, vals, origin
         self.T = DictT(k, v)
     def terms(self): return [self.dom] + list(self.vals)
+    def ksort_(self): return self.k.comps()[0][1]
     def __repr__(self): return 'VDict(%r,%r)' % (self.k, self.v)
 
 
@@ -304,6 +305,12 @@ class VModule(V):
 class VPyConst(V):
     """A live Python constant container (module-level dict / tuple table)."""
     def __init__(self, obj): self.obj = obj
+
+
+class VDictView(V):
+    """d.keys() / d.values() / d.items() of a symbolic dict (optionally through sorted()/list())."""
+    def __init__(self, d, kind, is_sorted=False):
+        self.d, self.kind, self.is_sorted = d, kind, is_sorted
 
 
 class VEnum(V):
